@@ -240,6 +240,7 @@ class Machine(object):
         s.panics = []
         s.now = 0
         s.pruner = None
+        s.freed = {}            # heap cell id -> guard under which its Box allocation has been released
     # ---------------------------------------------------------------- helpers
     def oblige(s, kind, text, g):
         if g is FALSE: return
@@ -663,6 +664,9 @@ class Machine(object):
         if s.debug and getattr(s, 'trace_thread', None) == th.name and (getattr(s, 'debug_model', None) is None or evaluate(st.g, s.debug_model)): print('      [%s] %s %s  g=%s  term=%s' % (th.name, fn.name.split('::')[-1], st.blk, show(st.g, 1)[:60], (b.term[2][:70] if b.term[0] == 'call' else b.term[0])))
         for stm in b.stmts: s.exec_stmt(st, stm)
         t = b.term; k = t[0]; g = st.g
+        dm = getattr(s, 'debug_model', None)
+        if dm is not None and getattr(s, 'watch_fn', None) and fn.name.endswith(s.watch_fn) and evaluate(g, dm):
+            print('   WATCH', fn.name[-30:], st.blk, {i: st.get(st.cp, i) for i in s.watch_locals})
         if k == 'goto': st.blk = t[1]; s.push(st)
         elif k == 'switch':
             v = s.operand(st, t[1])
